@@ -59,7 +59,7 @@ class Ctx:
 
 class Case:
     def __init__(self, name, prop, recv_ty, recv, calls, assume, claims, bounds=None, notes=None, functions=None,
-                 expect_ok=True, max_paths=4000, loop_bound=40, timeout_ms=20000, free_fn=False, stubs=None, extra_syms=(), check_side=True, ret_ty=None):
+                 expect_ok=True, max_paths=4000, loop_bound=40, timeout_ms=60000, free_fn=False, stubs=None, extra_syms=(), check_side=True, ret_ty=None):
         self.check_side = check_side
         self.ret_ty = ret_ty  # harness wrapper struct naming the fields of a returned tuple (translator validation compares it field by field)
         self.stubs = stubs or {}
